@@ -10,4 +10,11 @@ open Strengths.Gen.PyNumeric
 limited number of digits (the model computes its values exactly and its texts through `repr`) -/
 theorem rdgraphspace_full_precision : fullPrecision inv_rdgraphspace = true := by decide +kernel
 
+/-- the only maxima / minima / absolute values taken in `rdgraphspace.py` are the canonical (smaller, larger) order of an edge's ends in `get_edge`-style lookups (integers); no amount, rate, time or
+coefficient is clamped, and no exception is swallowed -/
+theorem rdgraphspace_no_clamping :
+    clamp_rdgraphspace =
+      [("clamp", "min(edge.i,edge.j)"), ("clamp", "max(edge.i,edge.j)")] := by
+  decide +kernel
+
 end Strengths.PyNumeric
